@@ -625,3 +625,95 @@ def monitor_c14(se, stats):
                             viol.append({"step": i, "what": "auto-delete queue %s lost its last consumer through `%s` but still exists" % (qn, st["op"])})
         prev = cur
     return viol
+
+
+REPLY_OF = {"CH": "channel.open-ok", "CHCLOSE": "channel.close-ok", "FLOW": "channel.flow-ok", "XD": "exchange.declare-ok",
+            "QD": "queue.declare-ok", "QB": "queue.bind-ok", "QU": "queue.unbind-ok", "QP": "queue.purge-ok", "QDEL": "queue.delete-ok",
+            "QOS": "basic.qos-ok", "CONS": "basic.consume-ok", "CANCEL": "basic.cancel-ok", "GET": ("basic.get-ok", "basic.get-empty"),
+            "CONFIRM": "confirm.select-ok", "CLOSE": "connection.close-ok"}
+NOWAIT_FIELD = {"XD": 9, "QD": 8, "QB": 7, "QP": 4, "QDEL": 6, "CONS": 7, "CANCEL": 4, "CONFIRM": 3}
+REPLY_NAMES = {"channel.open-ok", "channel.close-ok", "channel.flow-ok", "exchange.declare-ok", "exchange.delete-ok", "queue.declare-ok",
+               "queue.bind-ok", "queue.unbind-ok", "queue.purge-ok", "queue.delete-ok", "basic.qos-ok", "basic.consume-ok",
+               "basic.cancel-ok", "basic.get-ok", "basic.get-empty", "confirm.select-ok", "connection.close-ok"}
+
+
+def monitor_c18(se, stats):
+    """Every synchronous request gets exactly one reply of the right kind on its own channel, or one close naming it;
+    no-wait requests and requests without a reply get none; unsupported methods get NOT_IMPLEMENTED."""
+    viol = []
+    prev = None
+    for i, st in enumerate(se["steps"]):
+        if st["snap"] == ["WEDGED"]:
+            viol.append({"step": i, "what": "no reply: the broker stopped answering after `%s` (%s)" % (st["op"], st.get("note"))})
+            break
+        subs = [x.strip() for x in st["op"][6:].split("|")] if st["op"].startswith("MULTI ") else [st["op"]]
+        fr = frames_of(st)
+        pre = prev
+        expected = []          # per sub-request: set of acceptable reply names, or None (no reply expected), for the channel
+        judgeable = pre is not None
+        for op in subs:
+            f = op.split()
+            if f[0] in ("OPEN", "DROP", "CLOSEOK", "CHCLOSEOK", "PUB", "PUBM", "HDR", "BODY", "ACK", "NACK", "REJ"):
+                continue
+            if f[0] == "CLOSE":
+                expected.append((int(f[1]), 0, {"connection.close-ok"}, op))
+                continue
+            if f[0] not in REPLY_OF and f[0] not in ("TXSELECT", "RECOVER", "XDEL"):
+                continue
+            c, h = int(f[1]), int(f[2])
+            if len(subs) == 1 and judgeable:
+                exp = expected_refusal(op, pre)
+            else:
+                exp = "unknown"
+            if exp == "discarded":
+                expected.append((c, h, set(), op))
+            elif exp in (None, "maybe406") and f[0] in REPLY_OF:
+                nw = f[0] in NOWAIT_FIELD and f[NOWAIT_FIELD[f[0]]] == "1"
+                r = REPLY_OF[f[0]]
+                names = set(r) if isinstance(r, tuple) else {r}
+                if exp == "maybe406":
+                    names = names | {"channel.close"}
+                    if nw:
+                        names = names | {None}
+                expected.append((c, h, ({None} if nw and exp is None else names), op))
+            elif exp == "unknown":
+                expected.append((c, h, "any", op))
+            else:
+                expected.append((c, h, {"channel.close" if exp[0] == "ch" else "connection.close"}, op))
+        # observed: reply frames and closes, per (conn, chan), in order
+        for (c, h, want, op) in expected:
+            stats["requests_judged"] = stats.get("requests_judged", 0) + 1
+        by_chan = {}
+        for (c, h, name, args, tail) in fr:
+            if name in REPLY_NAMES or name in ("channel.close", "connection.close"):
+                by_chan.setdefault(c, []).append((h, name))
+        for c in set(x[0] for x in expected):
+            exp_c = [x for x in expected if x[0] == c]
+            got = list(by_chan.get(c, []))
+            for (_, h, want, op) in exp_c:
+                if want == "any":
+                    # pipelined: at most one reply or close per request; consume one if it is on this channel
+                    if got and (got[0][0] == h or got[0][1] == "connection.close"):
+                        got.pop(0)
+                    continue
+                if want == set() or want == {None}:
+                    continue
+                if not got:
+                    if None in want:
+                        continue
+                    viol.append({"step": i, "what": "request `%s` got no reply (expected %s)" % (op, sorted(x for x in want if x)), })
+                    break
+                gh, gname = got[0]
+                if gname in want and (gh == h or gname == "connection.close"):
+                    got.pop(0)
+                elif None in want:
+                    continue
+                else:
+                    viol.append({"step": i, "what": "request `%s` answered by %s on channel %d (expected %s on channel %d)" % (op, gname, gh, sorted(x for x in want if x), h)})
+                    break
+            else:
+                if got and not any(x[2] == "any" for x in exp_c):
+                    viol.append({"step": i, "what": "unsolicited reply frames %s after `%s`" % (got, st["op"])})
+        if st["snap"] != ["WEDGED"]:
+            prev = parse_snap(st["snap"])
+    return viol
